@@ -106,7 +106,7 @@ AllDevs == {"Dev_LastPipeInParent", "Dev_ErrCheckEveryStmt", "Dev_ErrexitNegated
             "Dev_ErrexitCmdSubst", "Dev_ExitInTrapIgnored", "Dev_ExitTrapSubshell", "Dev_ErrTrapInherited",
             "Dev_ReturnTopLevel", "Dev_ReturnSubshell", "Dev_LocalSubshell", "Dev_BreakDeferred",
             "Dev_BreakZero", "Dev_WhileStatus", "Dev_ShiftRange", "Dev_ReturnNoArg", "Dev_NounsetArith",
-            "Dev_NounsetElem", "Dev_NegatedExit", "Dev_ArithErrorFatal", "Dev_TestBangPrecedence"}
+            "Dev_NounsetElem", "Dev_NegatedExit", "Dev_TestBangPrecedence", "Dev_ArithLazyExpansion"}
 
 S0(dev) == [vars |-> [n \in VarNames |-> Unset], loc |-> <<>>, pos |-> <<>>,
             fn |-> [n \in FnNames |-> NoFn],
@@ -206,6 +206,7 @@ DqUnescape(v) ==
   ELSE <<Head(v)>> \o DqUnescape(Tail(v))
 
 \* ---- variables
+MaxKeyOf(m) == IF DOMAIN m = {} THEN 0 - 1 ELSE CHOOSE x \in DOMAIN m : \A y \in DOMAIN m : y <= x
 ArrVals(m) == LET ks == SortNat(DOMAIN m) IN [i \in 1..Len(ks) |-> m[ks[i]]]
 \* scalar view of a variable: [set, v]
 Look(s, nm) ==
@@ -224,6 +225,7 @@ SetVar(s, nm, val) == IF nm \in VarNames THEN [s EXCEPT !.vars[nm] = val] ELSE B
 \* top level of a script, 1 inside a subshell environment (the oracle runs programs in one).
 Unbound(s) == [s EXCEPT !.ctl = "x", !.st = IF s.sub = 0 THEN 127 ELSE 1]   \* a program itself runs at sub = 1
 
+RECURSIVE ATop(_, _)
 RECURSIVE XStmts(_, _, _), XStmt(_, _), XCmd(_, _), XParts(_, _, _, _), XPart(_, _, _), XParam(_, _, _),
           XWords(_, _, _), XArith(_, _), XTest(_, _), XWhile(_, _, _), XFor(_, _, _, _, _), XCaseItems(_, _, _, _, _),
           XAssigns(_, _, _, _), RunSub(_, _), XCall(_, _), XBuiltin(_, _, _), XFn(_, _, _), RunTrap(_, _), XPipe(_, _),
@@ -248,6 +250,7 @@ XArith(e, s) ==
          ELSE LET r == XParts(e.Parts, 1, s, FALSE)
                   t == JoinOf(r.p) IN
               IF ~Live(r.s) THEN [v |-> 0, s |-> r.s]
+              ELSE IF t = <<>> THEN [v |-> 0, s |-> r.s]
               ELSE IF IsNum(t) THEN [v |-> NumVal(t), s |-> r.s]
               ELSE IF Len(t) = 1 /\ t[1] \in VarNames THEN AVarVal(r.s, t[1])
               ELSE [v |-> 0, s |-> Bad(r.s, "arithmetic on non-integer text")]
@@ -301,6 +304,29 @@ XArith(e, s) ==
                             [] e.Op = "," -> b.v,
                     s |-> b.s]
 
+\* bash expands every $parameter, $(command) ... of an arithmetic expression FIRST (left to right) and evaluates the
+\* resulting text afterwards: in $(( x++ - $x )) the $x is the value before the increment.
+RECURSIVE PreX(_, _), AHasExp(_), AHasWrite(_)
+AHasExp(e) == CASE e.k = "Word" -> \E i \in 1..Len(e.Parts) : e.Parts[i].k # "Lit"
+                [] e.k = "BinaryArithm" -> AHasExp(e.X) \/ AHasExp(e.Y)
+                [] OTHER -> AHasExp(e.X)
+AHasWrite(e) == CASE e.k = "Word" -> FALSE
+                  [] e.k = "BinaryArithm" -> e.Op \in {"=", "+=", "-=", "*="} \/ AHasWrite(e.X) \/ AHasWrite(e.Y)
+                  [] e.k = "UnaryArithm" -> e.Op \in {"++", "--"} \/ AHasWrite(e.X)
+                  [] OTHER -> AHasWrite(e.X)
+PreX(e, s) ==
+  IF ~Live(s) THEN [e |-> e, s |-> s]
+  ELSE CASE e.k = "Word" ->
+         IF ~AHasExp(e) THEN [e |-> e, s |-> s]
+         ELSE LET r == XParts(e.Parts, 1, s, FALSE) IN [e |-> [k |-> "Word", Parts |-> <<[k |-> "Lit", Value |-> JoinOf(r.p)]>>], s |-> r.s]
+    [] e.k = "BinaryArithm" -> LET a == PreX(e.X, s) b == PreX(e.Y, a.s) IN [e |-> [e EXCEPT !.X = a.e, !.Y = b.e], s |-> b.s]
+    [] OTHER -> LET a == PreX(e.X, s) IN [e |-> [e EXCEPT !.X = a.e], s |-> a.s]
+\* an arithmetic expression where it starts ($(( )), (( )), index, slice bound).  The code expands when the
+\* evaluation reaches the word (Dev_ArithLazyExpansion).
+ATop(e, s) ==
+  IF D(s, "Dev_ArithLazyExpansion") THEN XArith(e, IF AHasExp(e) /\ AHasWrite(e) THEN Trig(s, "Dev_ArithLazyExpansion") ELSE s)
+  ELSE LET p == PreX(e, s) IN XArith(p.e, p.s)
+
 \* ---- word expansion:  [p |-> pieces, s |-> state]
 XParts(parts, i, s, q) ==
   IF i > Len(parts) \/ ~Live(s) THEN [p |-> <<>>, s |-> s]
@@ -339,7 +365,7 @@ XPart(part, s, q) ==
     [] part.k = "CmdSubst" ->
          LET r == XSubst(IF Has(part, "Stmts") THEN part.Stmts ELSE <<>>, s) IN [p |-> mk(r.v), s |-> r.s]
     [] part.k = "ArithmExp" ->
-         LET r == XArith(part.X, s) IN
+         LET r == ATop(part.X, s) IN
          \* bash abandons the rest of the current LINE after an expansion error: layout-dependent
          IF r.s.aerr THEN [p |-> <<>>, s |-> Bad(r.s, "arithmetic error inside an expansion")]
          ELSE [p |-> mk(Dec(r.v)), s |-> r.s]
@@ -357,7 +383,10 @@ XParam(pe, s, q) ==
             IF pe.Index.Parts[1].Value = <<"@">>
             THEN [p |-> mk(Dec(IF isArr THEN Cardinality(DOMAIN s.vars[nm].m) ELSE IF Look(s, nm).set THEN 1 ELSE 0)), s |-> s]
             ELSE [p |-> <<>>, s |-> Bad(s, "length of an element")]
-       ELSE LET ix == XArith(pe.Index, s)
+       ELSE LET ix0 == ATop(pe.Index, s)
+                \* a negative index counts back from one past the largest index
+                isA2 == nm \in VarNames /\ ix0.s.vars[nm].t = "a"
+                ix == IF ix0.v < 0 /\ isA2 THEN [ix0 EXCEPT !.v = MaxKeyOf(ix0.s.vars[nm].m) + 1 + ix0.v] ELSE ix0
                 set == IF isArr THEN ix.v \in DOMAIN ix.s.vars[nm].m ELSE ix.v = 0 /\ Look(ix.s, nm).set
                 v == IF ~set THEN <<>> ELSE IF isArr THEN ix.s.vars[nm].m[ix.v] ELSE Look(ix.s, nm).v IN
             IF ~Live(ix.s) THEN [p |-> <<>>, s |-> ix.s]
@@ -369,8 +398,8 @@ XParam(pe, s, q) ==
   ELSE IF nm \in {"@", "*"} THEN [p |-> <<>>, s |-> Bad(s, "$* or $@ with an operator")]
   ELSE IF Has(pe, "Slice") THEN       \* ${x:off:len} with non-negative bounds
        LET x == Look(s, nm)
-           o == XArith(pe.Slice.Offset, s)
-           n == IF Has(pe.Slice, "Length") THEN XArith(pe.Slice.Length, o.s) ELSE [v |-> Len(x.v), s |-> o.s]
+           o == ATop(pe.Slice.Offset, s)
+           n == IF Has(pe.Slice, "Length") THEN ATop(pe.Slice.Length, o.s) ELSE [v |-> Len(x.v), s |-> o.s]
            hi == IF o.v + n.v > Len(x.v) THEN Len(x.v) ELSE o.v + n.v IN
        IF ~Live(n.s) THEN [p |-> <<>>, s |-> n.s]
        ELSE IF n.s.aerr THEN [p |-> <<>>, s |-> Bad(n.s, "arithmetic error inside an expansion")]
@@ -565,7 +594,7 @@ XPipe(c, s) ==
 XArrElems(es, i, s, acc) ==      \* acc: [m |-> map, nx |-> next index]
   IF i > Len(es) \/ ~Live(s) THEN [m |-> acc.m, s |-> s]
   ELSE IF Has(es[i], "Index") THEN
-       LET ix == XArith(es[i].Index, s)
+       LET ix == ATop(es[i].Index, s)
            v == XJoin(es[i].Value, ix.s) IN
        IF ix.v < 0 THEN [m |-> acc.m, s |-> Bad(ix.s, "negative index")]
        ELSE XArrElems(es, i + 1, v.s, [m |-> (ix.v :> v.v) @@ acc.m, nx |-> ix.v + 1])
@@ -597,9 +626,10 @@ XAssign(as, s, local) ==
            r == XArrElems(es, 1, s0, [m |-> base, nx |-> MaxKey(base) + 1]) IN
        IF ~Live(r.s) THEN r.s ELSE SetVar(r.s, nm, Arr(r.m))
   ELSE IF Has(as, "Index") THEN
-       LET ix == XArith(as.Index, s0)
-           v == IF Has(as, "Value") THEN XJoin(as.Value, ix.s) ELSE [v |-> <<>>, s |-> ix.s]
+       LET ix0 == ATop(as.Index, s0)
            base == IF cur.t = "a" THEN cur.m ELSE IF cur.t = "s" THEN (0 :> cur.v) ELSE EmptyMap
+           ix == IF ix0.v < 0 THEN [ix0 EXCEPT !.v = MaxKeyOf(base) + 1 + ix0.v] ELSE ix0
+           v == IF Has(as, "Value") THEN XJoin(as.Value, ix.s) ELSE [v |-> <<>>, s |-> ix.s]
            old == IF Has(as, "Append") /\ ix.v \in DOMAIN base THEN base[ix.v] ELSE <<>> IN
        IF ~Live(v.s) THEN v.s
        ELSE IF ix.v < 0 THEN Bad(v.s, "negative index")
@@ -826,11 +856,11 @@ XCmd(c, s) ==
     [] c.k = "BinaryCmd" -> XPipe(c, s)          \* only | reaches here (&& and || are handled in XStmt)
     [] c.k = "TestClause" -> LET r == XTest(c.X, s) IN IF Live(r.s) THEN St(r.s, IF r.v THEN 0 ELSE 1) ELSE r.s
     [] c.k = "ArithmCmd" ->
-         LET r == XArith(c.X, s) IN
+         LET r == ATop(c.X, s) IN
          IF r.s.aerr /\ r.s.bad = "" THEN
-              \* (( )) with an expression in error: status 1 and the shell goes on (the code: the shell exits)
-              IF D(s, "Dev_ArithErrorFatal") THEN [Trig(r.s, "Dev_ArithErrorFatal") EXCEPT !.aerr = FALSE, !.ctl = "x", !.st = 1]
-              ELSE St([r.s EXCEPT !.aerr = FALSE], 1)
+              \* (( )) with an expression in error: status 1 and the shell goes on.  (The code's parser already rejects
+              \* `5++` and `$x = 1`, so no generated program gets here.)
+              St([r.s EXCEPT !.aerr = FALSE], 1)
          ELSE IF Live(r.s) THEN St(r.s, IF r.v # 0 THEN 0 ELSE 1) ELSE r.s
     [] c.k = "DeclClause" ->
          IF c.Variant.Value # "local" THEN Bad(s, "declaration outside the model")
@@ -978,7 +1008,7 @@ DWord(p, d, inF) ==
 
 \* ---- commands (each menu entry is a statement)
 NLeaf == 36
-NCmd  == 56
+NCmd  == 57
 EchoQ(pre, nm) == SCall(<<LW(W_echo), Wd(<<DQ(<<Lit(pre), PES(nm)>>)>>)>>)     \* echo "pre$nm"
 TrapT == <<"e", "c", "h", "o", " ", "T", "$", "?">>
 TrapE == <<"e", "c", "h", "o", " ", "E", "$", "?">>
@@ -1149,6 +1179,12 @@ DCmdK(c, p, d, inF) ==
                             X |-> [k |-> "UnaryTest", Op |-> "!", X |-> [k |-> "UnaryTest", Op |-> "-n", X |-> w.t]],
                             Y |-> [k |-> "UnaryTest", Op |-> "-n", X |-> Wd(<<DQ2>>)]]]),
                      <<"[[", SP, "!", SP, "-n", SP>> \o w.r \o <<SP, "&&", SP, "-n", SP, "\"\"", SP, "]]">>)
+
+    [] c = 56 ->      \* { x=3; echo $((x++ - $x)) $x; } : $x is substituted before anything is evaluated
+                 leaf(Stm(Blk(<<SAsg("x", LW(<<"3">>)),
+                               SCall(<<LW(W_echo), Wd(<<[k |-> "ArithmExp", X |-> BinA("-", [k |-> "UnaryArithm", Op |-> "++", Post |-> TRUE, X |-> LW(<<"x">>)],
+                                                                                  Wd(<<PES("x")>>))]>>), Wd(<<PES("x")>>)>>)>>)),
+                      <<"{", SP, "x=3", SEP, "echo", SP, "$((x++-$x))", SP, "$x", SEP, "}">>)
 
 \* statement lists: one statement, optionally followed by a second (simple) one
 DStmts(p, d, inF) ==
